@@ -1229,7 +1229,26 @@ def c06_25(ctx):
     return [ctx.ok(spec, "the witness is <sig or empty per key, reverse key order, bytes as given> ‖ script ‖ control block [‖ annex] in all %d cells" % cells, fn, mod, key="tapscript-witness")]
 
 
+def c06_26(ctx):
+    """the DER codec every ECDSA signature in a ScriptSig / witness goes through: signatures with short r or s (leading zero bytes dropped,
+    about 1 in 256) decode (rule shared with C01.7)"""
+    from rules.C01 import c01_7
+    return c01_7(ctx)
+
+
+
+def c06_27(ctx):
+    """what a signature commits to: the three signature-hash preimages against their specifications, per hash type (legacy: every other input
+    with its own sequence; BIP143; BIP341) -- a field left out of the digest can be altered without invalidating the spend (rules shared
+    with C05.2-C05.4)"""
+    from rules.C05 import c05_2, c05_3, c05_4
+    return c05_2(ctx) + c05_3(ctx) + c05_4(ctx)
+
+
+
 OBLIGATIONS = [
+    ("C06.27", "LAYOUT digests vs spec (shared C05.2-4)", c06_27),
+    ("C06.26", "LAYOUT der (shared C01.7)", c06_26),
     ("C06.25", "CELLS tapscript witness", c06_25),
     ("C06.24", "CELLS control block length (shared C12.17)", c06_24),
     ("C06.23", "CELLS p2sh ScriptSig", c06_23),
